@@ -16,6 +16,13 @@ class Tag:
     def __repr__(self):
         return f"Tag({self.n})"
 
+    # two calls made with "the same" extra arguments must look the same to a memoising mapper
+    def __eq__(self, other):
+        return isinstance(other, Tag) and other.n == self.n
+
+    def __hash__(self):
+        return hash(("Tag", self.n))
+
 
 def tags_of(args):
     return [a.n if isinstance(a, Tag) else -1 for a in args]
@@ -76,7 +83,7 @@ def build_hierarchy(base, chain):
 
 def instance_of(base, cls):
     import pymbolic.primitives as p
-    if base == "Expression":
+    if base in ("Expression", "AlgebraicLeaf", "Leaf"):
         return cls()
     if base == "Variable":
         return cls("x")
@@ -265,6 +272,45 @@ def user_classes():
     return _USER
 
 
+_UTAB = {"key": None, "classes": [], "index": {}}
+
+
+def user_node_classes(table):
+    """The user node classes of C04_UCls.tla: class number u (1-based) -> the class at the
+    end of its chain.  The first class of a chain declares the expression fields c0.."""
+    import json
+    key = json.dumps(table, sort_keys=True)
+    if _UTAB["key"] == key:
+        return _UTAB["classes"]
+    import pymbolic.primitives as p
+    classes = []
+    for uc in table:
+        parent = getattr(p, uc["base"])
+        for i, c in enumerate(uc["chain"]):
+            ns = {}
+            if c["own"]:
+                ns["mapper_method"] = c["own"]
+            if i == 0:
+                ns["__annotations__"] = {f"c{j}": p.ExpressionT for j in range(uc["ar"])}
+            cls = type(c["name"], (parent,), ns)
+            if c["deco"]:
+                cls = p.expr_dataclass()(cls)
+            parent = cls
+        classes.append(parent)
+    _UTAB["key"], _UTAB["classes"] = key, classes
+    _UTAB["index"] = {cls: i + 1 for i, cls in enumerate(classes)}
+    return classes
+
+
+def user_kids(expr):
+    """The expression fields of an instance of a table class (nothing for any other object)."""
+    if type(expr) not in _UTAB["index"]:
+        return ()
+    import dataclasses
+    return tuple(getattr(expr, f.name) for f in dataclasses.fields(expr)
+                 if f.name[0] == "c" and f.name[1:].isdigit())
+
+
 _NARY = {"Sum": "Sum", "Product": "Product", "BitOr": "BitwiseOr", "BitXor": "BitwiseXor",
          "BitAnd": "BitwiseAnd", "LogOr": "LogicalOr", "LogAnd": "LogicalAnd",
          "Min": "Min", "Max": "Max", "Slice": "Slice"}
@@ -331,6 +377,8 @@ def build(j, reg):
         o = getattr(p, _NARY[t])(kids())
     elif t == "USum":
         o = user_classes()["USum"](kids())
+    elif t == "UNode":
+        o = _UTAB["classes"][j["u"] - 1](*kids())
     elif t == "Tup":
         o = kids()
     elif t == "List":
@@ -367,6 +415,7 @@ def build(j, reg):
     else:
         raise ValueError(f"unknown node kind {t!r}")
     reg[id(o)] = j["id"]
+    reg.setdefault("objs", {})[j["id"]] = o      # occurrence number -> the object built for it
     return o
 
 
@@ -437,6 +486,8 @@ def dump(e):
         return node("ULeaf")
     if type(e) is u["USum"]:
         return node("USum", c=[dump(c) for c in e.children])
+    if type(e) in _UTAB["index"]:
+        return node("UNode", u=_UTAB["index"][type(e)], c=[dump(c) for c in user_kids(e)])
     if cls == "Variable":
         return node("Var", name=e.name)
     if cls in ("Wildcard", "DotWildcard", "StarWildcard"):
@@ -492,19 +543,32 @@ def _handler_names(base):
             and callable(getattr(base, n))]
 
 
-def instrumented(base, kind):
+def arg_suffix(args, kwargs):
+    """What the renaming leaf handler appends to a name: the extra arguments it received."""
+    return ("_new" + "".join(f"_{n}" for n in tags_of(args))
+            + "".join(f"_{e['k']}{e['v']}" for e in kw_of(kwargs)))
+
+
+def arg_sig(args, kwargs):
+    return (tuple(tags_of(args)), tuple((e["k"], e["v"]) for e in kw_of(kwargs)))
+
+
+def instrumented(base, kind, impl=()):
     """Subclass of a stock traversal whose every handler logs (event, handler, node
     occurrence, extra arguments) and delegates to the stock implementation.  kind selects
     the user-supplied parts: "walk" (visit/post_visit), "ident" (leaf handler that renames),
-    "comb" (combine + leaf handlers), "coll" (leaf handlers only)."""
-    key = (base, kind)
+    "comb" (combine + leaf handlers), "coll" (leaf handlers only).  The results of the
+    user-supplied leaf handlers carry the extra arguments they received.  impl: names of
+    handlers for user node classes that the user adds (written the way the stock handlers of
+    that traversal are written: every expression field is recursed into)."""
+    key = (base, kind, tuple(impl))
     if key in _FAMS:
         return _FAMS[key]
     ns = {}
 
     def note(self, e, h, expr, args, kwargs, **more):
         d = {"e": e, "n": self._reg.get(id(expr), -1), "a": tags_of(args), "k": kw_of(kwargs)}
-        if self._names:
+        if self._names or (e == "enter" and type(expr) in _UTAB["index"]):
             d["h"] = h
         d.update(more)
         self._log.append(d)
@@ -535,15 +599,29 @@ def instrumented(base, kind):
             return super(cls, self).post_visit(expr, *args, **kwargs)
         ns["visit"] = visit
         ns["post_visit"] = post_visit
+
+        def user_node(self, expr, *args, **kwargs):
+            if not self.visit(expr, *args, **kwargs):
+                return
+            for c in user_kids(expr):
+                self.rec(c, *args, **kwargs)
+            self.post_visit(expr, *args, **kwargs)
     elif kind == "ident":
         def leaf(self, expr, *args, **kwargs):
             if expr.name in self._R:
-                return type(expr)(expr.name + "_new")
+                return type(expr)(expr.name + arg_suffix(args, kwargs))
             return super(cls, self).map_variable(expr, *args, **kwargs)
         ns["map_variable"] = wrap("map_variable", leaf)
+
+        def user_node(self, expr, *args, **kwargs):
+            kids = user_kids(expr)
+            new = tuple(self.rec(c, *args, **kwargs) for c in kids)
+            if all(a is b for a, b in zip(new, kids)):
+                return expr
+            return type(expr)(*new)
     elif kind in ("comb", "coll"):
         def leaf(self, expr, *args, **kwargs):
-            return {self._reg.get(id(expr), -1)}
+            return {(self._reg.get(id(expr), -1),) + arg_sig(args, kwargs)}
         ns["map_variable"] = wrap("map_variable", leaf)
         ns["map_constant"] = wrap("map_constant", leaf)
         if kind == "comb":
@@ -553,12 +631,17 @@ def instrumented(base, kind):
                     res |= v
                 return res
             ns["combine"] = combine
+
+        def user_node(self, expr, *args, **kwargs):
+            return self.combine([self.rec(c, *args, **kwargs) for c in user_kids(expr)])
+    for name in impl:
+        ns[name] = wrap(name, user_node)
     cls = type("I" + base.__name__, (base,), ns)
     _FAMS[key] = cls
     return cls
 
 
-def make_traversal(fam, log, reg, F, R, names=False):
+def make_traversal(fam, log, reg, F, R, names=False, impl=()):
     import pymbolic.mapper as pm
     table = {
         "walk": (pm.WalkMapper, "walk"), "cwalk": (pm.CachedWalkMapper, "walk"),
@@ -568,29 +651,30 @@ def make_traversal(fam, log, reg, F, R, names=False):
         "cbident": (pm.IdentityMapper, "ident"),
     }
     base, kind = table[fam]
-    m = instrumented(base, kind)()
+    m = instrumented(base, kind, impl)()
     m._log, m._reg, m._F, m._R, m._names = log, reg, F, R, names
     if fam != "cbident":
-        return m
+        return m, m
 
     def function(expr, mapper, *args, **kwargs):
         n = reg.get(id(expr), -1)
-        log.append({"e": "cb-enter", "n": n, "a": tags_of(args), "k": kw_of(kwargs)})
+        m._log.append({"e": "cb-enter", "n": n, "a": tags_of(args), "k": kw_of(kwargs)})
         r = mapper.fallback_mapper(expr, *args, **kwargs)
-        log.append({"e": "cb-exit", "n": n, "a": tags_of(args), "k": kw_of(kwargs),
-                    "same": r is expr})
+        m._log.append({"e": "cb-exit", "n": n, "a": tags_of(args), "k": kw_of(kwargs),
+                       "same": r is expr})
         return r
-    return pm.CallbackMapper(function, m)
+    return pm.CallbackMapper(function, m), m
 
 
 def drive_walk(case, extra):
-    """One tree x one traversal configuration -> the event list, how the call ended, what
-    it returned."""
+    """One tree x one traversal configuration x a history of calls on ONE mapper instance
+    (each call: the node of the tree the mapper is applied to and the extra arguments) ->
+    per call the event list, how the call ended, what it returned."""
     with warnings.catch_warnings():
         warnings.simplefilter("ignore")
         cfg = case["cfg"]
-        rec = {"id": case["id"], "tree": case["tree"], "cfg": cfg, "evs": [],
-               "out": {"r": "ok", "exc": ""}}
+        rec = {"id": case["id"], "tree": case["tree"], "cfg": cfg, "calls": []}
+        user_node_classes((extra or {}).get("uclasses", []))
         reg = {}
         try:
             expr = build(case["tree"], reg)
@@ -600,26 +684,34 @@ def drive_walk(case, extra):
         except Exception as exc:  # noqa: BLE001 - the generated tree cannot be constructed
             rec["built"] = {"t": "Unbuildable", "exc": exc_name(exc)}
             return rec
-        log = rec["evs"]
-        m = make_traversal(cfg["fam"], log, reg, set(cfg["F"]), set(cfg["R"]),
-                           names=bool(extra and extra.get("names")))
-        a, k = mk_args(cfg)
+        objs = reg["objs"]
         fam = cfg["fam"]
-        try:
-            res = m(expr, *a, **k)
-        except RecursionError:
-            raise
-        except Exception as exc:  # noqa: BLE001 - the class is the observation
-            rec["out"] = {"r": "err", "exc": exc_name(exc)}
-            return rec
-        if fam in ("ident", "cident", "cbident"):
-            rec["res"] = safe_dump(res)
+        m, inner = make_traversal(fam, [], reg, set(cfg["F"]), set(cfg["R"]),
+                                  names=bool(extra and extra.get("names")), impl=tuple(cfg["impl"]))
+        for call in case["calls"]:
+            c = {"n": call["n"], "a": call["a"], "k": call["k"], "evs": [],
+                 "out": {"r": "ok", "exc": ""}}
+            rec["calls"].append(c)
+            inner._log = c["evs"]
+            a, k = mk_args(call)
+            target = objs[call["n"]]
             try:
-                rec["eq"] = 1 if bool(res == expr) else 0
-            except Exception:  # noqa: BLE001 - == is not defined (arrays inside)
-                rec["eq"] = -1
-        elif fam in ("comb", "ccomb", "coll", "ccoll"):
-            ok = isinstance(res, (set, frozenset)) and all(isinstance(x, int) for x in res)
-            rec["resok"] = bool(ok)
-            rec["res"] = sorted(res) if ok else []
+                res = m(target, *a, **k)
+            except RecursionError:
+                raise
+            except Exception as exc:  # noqa: BLE001 - the class is the observation
+                c["out"] = {"r": "err", "exc": exc_name(exc)}
+                continue
+            if fam in ("ident", "cident", "cbident"):
+                c["res"] = safe_dump(res)
+                try:
+                    c["eq"] = 1 if bool(res == target) else 0
+                except Exception:  # noqa: BLE001 - == is not defined (arrays inside)
+                    c["eq"] = -1
+            elif fam in ("comb", "ccomb", "coll", "ccoll"):
+                ok = isinstance(res, (set, frozenset)) and all(
+                    isinstance(x, tuple) and len(x) == 3 and isinstance(x[0], int) for x in res)
+                c["resok"] = bool(ok)
+                c["res"] = ([{"n": n, "a": list(aa), "k": [{"k": kk, "v": vv} for kk, vv in ks]}
+                             for n, aa, ks in sorted(res)] if ok else [])
         return rec
